@@ -66,7 +66,8 @@ def dense_py(cx, skel_runs, genome, prefix):
 RUNSETS = {"g1": [[], [0], [0, 0]], "g2": [[0], [1], [0, 1], [0, 0, 1]], "g3": [[0, 2], [1], [0, 1, 2]], "g1b": [[0, 0, 0]]}
 
 UNARY = ("to_dict", "sum", "add_scalar", "mul3", "lt_scalar", "eq_scalar", "neg_mask", "roundtrip", "mask_roundtrip",
-         "rsub_scalar", "rlt_scalar", "float_dense", "iv_pileup", "iv_mask")
+         "rsub_scalar", "rlt_scalar", "float_dense", "iv_pileup", "iv_mask", "iv_pileup_sub", "iv_pileup_neg", "float_close_mul2")
+CLOSE = [0.75, 0.750001, 2e-9]   # doubles that differ by less than np.isclose's tolerances (from each other / from 0): they are still different values
 FLOATS = [0.7, 0.1, 2.5]      # values of the float track (record i carries FLOATS[i]): a larger value followed by smaller non-dyadic ones
 BINARY = ("add", "sub", "lt", "and", "or")
 
@@ -78,7 +79,7 @@ class Track(Harness):
                  "npstructures.RunLengthArray ufuncs")
     bounds = {"quick": "genomes {chr1:4}, {chr1:3,chr2:2}, {chr1:2,chr10:1,chr2:3}; 0-2 bedGraph records with symbolic sorted "
                        "non-overlapping boundaries and values in [-3,3]; unary ops incl. a scalar as the LEFT operand (k - t, k < t); the same "
-                       "records with the double values 0.7, 0.1, 2.5 expanded exactly; pileup and mask built from the records' INTERVALS (touching intervals incl.); binary ops of two single-record tracks",
+                       "records with the double values 0.7, 0.1, 2.5 expanded exactly; pileup and mask built from the records' INTERVALS (touching intervals incl.), the pileup minus a scalar and negated (signed results); doubles closer than np.isclose's tolerance, times 2; binary ops of two single-record tracks",
               "thorough": "up to 3 records per track, a 6-base chromosome, binary ops of tracks with 1-2 records each on all genomes"}
 
     def skeletons(self, tier, seed):
@@ -112,7 +113,7 @@ class Track(Harness):
         declare_track(V, skel["a"], sizes, "a")
         if skel["b"] is not None:
             declare_track(V, skel["b"], sizes, "b")
-        if skel["op"] in ("add_scalar", "lt_scalar", "eq_scalar", "rsub_scalar", "rlt_scalar"):
+        if skel["op"] in ("add_scalar", "lt_scalar", "eq_scalar", "rsub_scalar", "rlt_scalar", "iv_pileup_sub"):
             V.int("k", -3, 3)
 
     def call(self, skel, x, ctx):
@@ -138,7 +139,7 @@ class Track(Harness):
                      **{"and": lambda: (A > 0) & (B > 0), "or": lambda: (A > 0) | (B > 0)})[op]()
             return dict(dense=dd(R), a=dd(A), b=dd(B))
         k = x.get("k")
-        if op == "float_dense":
+        if op in ("float_dense", "float_close_mul2"):
             # the same records with float values (concrete, see FLOATS): the dense expansion holds exactly these doubles
             import bionumpy as bnp
             from bionumpy.datatypes import BedGraph
@@ -147,10 +148,12 @@ class Track(Harness):
             cz = (lambda v: v) if ctx.mode == "plain" else __import__("symnp").ENGINE.concretize
             # the run boundaries are decided per path (the bit patterns of doubles are not given a symbolic meaning)
             bg = BedGraph([names[c] for c in skel["a"]], ctx.arr([cz(x[f"as{i}"]) for i in range(n)], "int64"),
-                          ctx.arr([cz(x[f"ae{i}"]) for i in range(n)], "int64"), np.array(FLOATS[:n], dtype=float))
+                          ctx.arr([cz(x[f"ae{i}"]) for i in range(n)], "int64"), np.array((FLOATS if op == "float_dense" else CLOSE)[:n], dtype=float))
             Fl = GenomicArray.from_bedgraph(bg, bnp.Genome.from_dict(dict(genome))._genome_context)
+            if op == "float_close_mul2":
+                Fl = Fl * 2       # an arithmetic ufunc on the run-length representation (doubling is exact in IEEE arithmetic)
             return dict(fdense={kk: [v for v in ctx.lst(vv)] for kk, vv in Fl.to_dict().items()})
-        if op in ("iv_pileup", "iv_mask"):
+        if op in ("iv_pileup", "iv_mask", "iv_pileup_sub", "iv_pileup_neg"):
             # the array built from INTERVALS (the records' boundaries, values ignored): touching intervals give equal neighbouring depths
             import bionumpy as bnp
             from bionumpy.datatypes import Interval
@@ -158,7 +161,11 @@ class Track(Harness):
             g = bnp.Genome.from_dict(dict(genome))
             gi = g.get_intervals(Interval([names[c] for c in skel["a"]], ctx.arr([x[f"as{i}"] for i in range(n)], "int64"),
                                           ctx.arr([x[f"ae{i}"] for i in range(n)], "int64")))
-            R = gi.get_pileup() if op == "iv_pileup" else gi.get_mask()
+            R = gi.get_mask() if op == "iv_mask" else gi.get_pileup()
+            if op == "iv_pileup_sub":
+                R = R - k          # depth minus a scalar: negative where the depth is smaller (a signed result)
+            elif op == "iv_pileup_neg":
+                R = -R
             return dict(dense=dd(R))
         if op == "rsub_scalar":
             return dict(dense=dd(ctx.np.subtract(k, A)), a=dd(A))          # k - A: scalar as the LEFT operand
@@ -193,7 +200,8 @@ class Track(Harness):
                 for p in range(genome[nm]):
                     conj.append((TB(got[nm][p]) == exp[nm][p]) if boolean else (TI(got[nm][p]) == exp[nm][p]))
             return True
-        if op == "float_dense":
+        if op in ("float_dense", "float_close_mul2"):
+            FL = FLOATS if op == "float_dense" else [2 * v for v in CLOSE]
             got = out["fdense"]
             if list(got) != names:
                 return False
@@ -203,8 +211,8 @@ class Track(Harness):
                     return False
                 for p in range(genome[nm]):
                     # which record covers p is symbolic; the value must be exactly that record's double (0.0 in gaps)
-                    for val in set(FLOATS[:len(skel["a"])] + [0.0]):
-                        covers = z_or([z3.And(x[f"as{i}"].t <= p, p < x[f"ae{i}"].t) for i, c in enumerate(skel["a"]) if c == ci and FLOATS[i] == val]) \
+                    for val in set(FL[:len(skel["a"])] + [0.0]):
+                        covers = z_or([z3.And(x[f"as{i}"].t <= p, p < x[f"ae{i}"].t) for i, c in enumerate(skel["a"]) if c == ci and FL[i] == val]) \
                             if val != 0.0 else z3.Not(z_or([z3.And(x[f"as{i}"].t <= p, p < x[f"ae{i}"].t) for i, c in enumerate(skel["a"]) if c == ci]))
                         g = got[nm][p]
                         same = (float(g) == val) if isinstance(g, (int, float)) else None
@@ -247,13 +255,14 @@ class Track(Harness):
             return False
         if b is not None and not cmp_dense(out["b"], b, False):
             return False
-        if op in ("iv_pileup", "iv_mask"):
+        if op in ("iv_pileup", "iv_mask", "iv_pileup_sub", "iv_pileup_neg"):
             exp = {}
             for ci, nm in enumerate(names):
                 col = []
                 for p in range(genome[nm]):
                     cov = [z3.And(x[f"as{i}"].t <= p, p < x[f"ae{i}"].t) for i, c in enumerate(skel["a"]) if c == ci]
-                    col.append(z_or(cov) if op == "iv_mask" else sum([z3.If(c, 1, 0) for c in cov], z3.IntVal(0)))
+                    depth = sum([z3.If(c, 1, 0) for c in cov], z3.IntVal(0))
+                    col.append(z_or(cov) if op == "iv_mask" else (depth - k if op == "iv_pileup_sub" else (-depth if op == "iv_pileup_neg" else depth)))
                 exp[nm] = col
             return z_and(conj) if cmp_dense(out["dense"], exp, op == "iv_mask") else False
         fn = {"to_dict": (lambda u, v: u, False), "add": (lambda u, v: u + v, False), "sub": (lambda u, v: u - v, False),
@@ -277,17 +286,19 @@ class Track(Harness):
         op, k = skel["op"], cx.get("k")
         recs = lambda pre, runs: [(names[c], cx[f"{pre}s{i}"], cx[f"{pre}e{i}"], cx[f"{pre}v{i}"]) for i, c in enumerate(runs)]
         desc = f"track a={recs('a', skel['a'])}" + (f" b={recs('b', skel['b'])}" if b is not None else "") + f" genome={genome}"
-        if op == "float_dense":
+        if op in ("float_dense", "float_close_mul2"):
+            FL = FLOATS if op == "float_dense" else [2 * v for v in CLOSE]
             exp = {}
             for ci, nm in enumerate(names):
                 col = [0.0] * genome[nm]
                 for i, c in enumerate(skel["a"]):
                     if c == ci:
                         for p in range(cx[f"as{i}"], cx[f"ae{i}"]):
-                            col[p] = FLOATS[i]
+                            col[p] = FL[i]
                 exp[nm] = col
             got = {nm: [float(v) for v in col] for nm, col in cout["fdense"].items()}
-            return None if got == exp else f"float track with values {FLOATS[:len(skel['a'])]} on {desc}: dense arrays {got}, expected exactly {exp}"
+            what = f"float track with values {FLOATS[:len(skel['a'])]}" if op == "float_dense" else f"float track with values {CLOSE[:len(skel['a'])]} times 2"
+            return None if got == exp else f"{what} on {desc}: dense arrays {got}, expected exactly {exp}"
         if op == "sum":
             tot = sum(sum(v) for v in a.values())
             return None if (cout["v"], cout["v2"]) == (tot, tot) else f"sum of {desc} = {cout}, expected {tot}"
@@ -308,11 +319,11 @@ class Track(Harness):
                 for p in range(s, e):
                     re[c][p] = True if boolean else r["value"][j]
             return None if re == exp else f"{op}: records {r} expand to {re}, dense array is {exp} ({desc})"
-        if op in ("iv_pileup", "iv_mask"):
+        if op in ("iv_pileup", "iv_mask", "iv_pileup_sub", "iv_pileup_neg"):
             exp = {}
             for ci, nm in enumerate(names):
                 cnt = [sum(1 for i, c in enumerate(skel["a"]) if c == ci and cx[f"as{i}"] <= p < cx[f"ae{i}"]) for p in range(genome[nm])]
-                exp[nm] = [v > 0 for v in cnt] if op == "iv_mask" else cnt
+                exp[nm] = [v > 0 for v in cnt] if op == "iv_mask" else ([v - k for v in cnt] if op == "iv_pileup_sub" else ([-v for v in cnt] if op == "iv_pileup_neg" else cnt))
             got = {nm: [(bool(v) if op == "iv_mask" else int(v)) for v in col] for nm, col in cout["dense"].items()}
             return None if got == exp else f"{op} of intervals {[(r[0], r[1], r[2]) for r in recs('a', skel['a'])]} on {genome}: {got}, expected {exp}"
         f = {"to_dict": lambda u, v: u, "add": lambda u, v: u + v, "sub": lambda u, v: u - v, "lt": lambda u, v: u < v,
